@@ -35,29 +35,16 @@ impl SegmentWriter {
         let header_bytes_written = WAL_ENTRY_HEADER_SIZE as u32;
         let op_data_len = op_data.len() as u32;
 
-        self.writer.write_all(&op_version.get().to_le_bytes()).map_err(|io_err| {
-            WalError::WriteWalEntryDataIO {
-                op_version,
-                segment_id: self.segment_id,
-                source: io_err,
-            }
-        })?;
-        self.writer.write_all(op_hash.as_bytes()).map_err(|io_err| {
-            WalError::WriteWalEntryDataIO {
-                op_version,
-                segment_id: self.segment_id,
-                source: io_err,
-            }
-        })?;
-        self.writer.write_all(&op_data_len.to_le_bytes()).map_err(|io_err| {
-            WalError::WriteWalEntryDataIO {
-                op_version,
-                segment_id: self.segment_id,
-                source: io_err,
-            }
-        })?;
+        // Assemble the whole record first and hand it to the writer in a single call, so that the
+        // header and the payload can never reach the file in two separate write(2) calls (a kill
+        // between them would leave a torn record that makes the next open fail).
+        let mut record = Vec::with_capacity(WAL_ENTRY_HEADER_SIZE + op_data.len());
+        record.extend_from_slice(&op_version.get().to_le_bytes());
+        record.extend_from_slice(op_hash.as_bytes());
+        record.extend_from_slice(&op_data_len.to_le_bytes());
+        record.extend_from_slice(op_data);
 
-        self.writer.write_all(op_data).map_err(|io_err| WalError::WriteWalEntryDataIO {
+        self.writer.write_all(&record).map_err(|io_err| WalError::WriteWalEntryDataIO {
             op_version,
             segment_id: self.segment_id,
             source: io_err,
